@@ -308,6 +308,14 @@ class Ranges:
             if is_transparent(e) and e[3]:
                 inner = self.of(e[3][0], depth + 1)
                 return _meet(ty_range(self.ty_of(e)), inner) if inner else ty_range(self.ty_of(e))
+            if last == "len" and len(e[3]) == 1:
+                # the length of an array (possibly seen as a slice) is its type's
+                x_ = e[3][0]
+                while x_[0] in ("ref", "cast"):
+                    x_ = x_[2]
+                ma = re.match(r"^\[[^;\]]+; (\d+)(_usize)?\]$", (self.ty_of(x_) or "").replace("&", "").replace("mut ", "").strip())
+                if ma:
+                    return (int(ma.group(1)), int(ma.group(1)))
             if last == "len" and nm.startswith(("std::vec::", "alloc::vec::", "core::slice::", "std::collections::", "alloc::collections::", "core::str::", "alloc::string::", "std::string::")) and len(e[3]) == 1:
                 # an allocation is at most isize::MAX bytes (language guarantee): len <= isize::MAX / size_of(item)
                 sz = self._elem_size_lb(self.ty_of(e[3][0]) or "")
